@@ -176,14 +176,19 @@ def run(eng, R):
     # every log10 in the compact table is taken of a quantity that was tested against zero / nan on the way there
     f = get_func(p, None, "kafe2.tools:get_compact_representation")
     n_log = 0
-    for c in ast.walk(f.node):
+    # the function itself and the private module-level helpers it calls (a digit computation may live in one of them, guarded there on its own parameter)
+    scopes = [f.node]
+    for c_ in ast.walk(f.node):
+        if isinstance(c_, ast.Call) and isinstance(c_.func, ast.Name) and c_.func.id.startswith("_") and c_.func.id in f.module.functions:
+            scopes.append(f.module.functions[c_.func.id].node)
+    for scope, c in [(sc, c) for sc in scopes for c in ast.walk(sc)]:
         if isinstance(c, ast.Call) and _txt(c.func) in ("np.log10", "math.log10", "log10") and c.args:
             names = [x.id for x in ast.walk(c.args[0]) if isinstance(x, ast.Name) and x.id not in ("np", "math")]
             if len(names) != 1:
                 continue
             n_log += 1
             v = names[0]
-            conds = common.guard_conditions(f.node, c)
+            conds = common.guard_conditions(scope, c, flat=True)
             guarded = False
             for t, pol in conds:
                 for cmp_ in ast.walk(t):
